@@ -1,6 +1,7 @@
 SPECIFICATION Spec
 CONSTANTS
   N = 4
+  LONG = 0
   PASS_PRODUCT = TRUE
 INVARIANTS Increasing PassBound Cover OnlyPlain
 PROPERTIES Terminates
